@@ -153,3 +153,43 @@ def run_slow_readers(res, tier, body_size=6 * 1024 * 1024):
         res.sample({"live": "stdlib stall-3s", "received_equals_expected": True})
     finally:
         shutil.rmtree(tmp, ignore_errors=True)
+
+def run_unusable_certificate(res, tier):
+    """a certificate/key pair that cannot be loaded (the key does not belong to the certificate): the server must not come up
+    serving the port without TLS - either it refuses to start, or whatever listens does not answer a plaintext request"""
+    from nauyaca.security.certificates import generate_self_signed_cert
+    tmp = scratch_dir("nv-live2-")
+    try:
+        os.makedirs(os.path.join(tmp, "capsule"))
+        open(os.path.join(tmp, "capsule", "index.gmi"), "wb").write(b"# secret capsule\n")
+        for backend in ("stdlib", "pyopenssl"):
+            c1, _k1 = generate_self_signed_cert("localhost"); _c2, k2 = generate_self_signed_cert("localhost")
+            port = free_port()
+            c, k = os.path.join(tmp, "bad-%s.pem" % backend), os.path.join(tmp, "bad-%s.key" % backend)
+            open(c, "wb").write(c1); open(k, "wb").write(k2)
+            p = subprocess.Popen([PY, "-c", SERVER_SCRIPT, os.path.join(tmp, "capsule"), c, k, str(port), "0", "1" if backend == "pyopenssl" else "0"],
+                                 env=dict(os.environ), stdout=subprocess.DEVNULL, stderr=subprocess.DEVNULL)
+            answer = None
+            deadline = time.time() + 6
+            try:
+                while time.time() < deadline and p.poll() is None:
+                    try:
+                        with socket.create_connection(("127.0.0.1", port), timeout=0.5) as sk:
+                            sk.settimeout(1.5)
+                            sk.sendall(("gemini://localhost:%d/\r\n" % port).encode())
+                            try: answer = sk.recv(200)
+                            except (socket.timeout, OSError): answer = b""
+                        break
+                    except OSError:
+                        time.sleep(0.1)
+            finally:
+                p.kill(); p.wait()
+            res.evaluations += 1; res.count("live-unusable-certificate")
+            res.nontriv(("live-bad-cert", backend))
+            if answer and len(answer) >= 3 and answer[:2].isdigit() and answer[2:3] == b" ":
+                res.violations.append({"clause": "no listener without TLS (live: certificate and key do not match)",
+                                       "signature": "C20:plaintext-listener-%s" % backend,
+                                       "case": {"backend": backend, "certificate": "key of another certificate"},
+                                       "trace": {"plaintext_request_answered_with": answer[:60].decode("latin-1")}})
+    finally:
+        shutil.rmtree(tmp, ignore_errors=True)
